@@ -407,6 +407,7 @@ func clauseLabel(c *Clause, i int) string {
 
 // ModSet describes what a code region may change.
 type ModSet struct {
+	Obj    map[string][]*ssa.Alloc // heap field prefixes ("H.T.f") written only through these locally allocated objects
 	Elem   map[string][]*ssa.Alloc // memory roots ("M.T") written only through element stores into these local slice variables
 	Vars   map[string]bool         // state var prefixes written on pre-existing objects (or locals/globals)
 	Allocs map[string]bool         // roots ("H.T" / "M.T" / "MD.k") written only at fresh objects
@@ -415,7 +416,7 @@ type ModSet struct {
 }
 
 func newModSet() *ModSet {
-	return &ModSet{Vars: map[string]bool{}, Allocs: map[string]bool{}, Ghost: map[string]bool{}, Elem: map[string][]*ssa.Alloc{}}
+	return &ModSet{Vars: map[string]bool{}, Allocs: map[string]bool{}, Ghost: map[string]bool{}, Elem: map[string][]*ssa.Alloc{}, Obj: map[string][]*ssa.Alloc{}}
 }
 
 func (m *ModSet) union(o *ModSet) {
@@ -439,6 +440,27 @@ func (fr *Frame) modVarsOfBlocks(blocks map[*ssa.BasicBlock]bool) *ModSet {
 			if st, ok := in.(*ssa.Store); ok {
 				if a, ok := st.Addr.(*ssa.Alloc); ok {
 					storedCells[a] = true
+				}
+				// field store into a struct allocated inside this very region: only fresh objects change
+				if root := allocRoot(st.Addr); root != nil && blocks[root.Block()] {
+					if et := root.Type().(*types.Pointer).Elem(); isStruct(et) && root.Heap {
+						for _, p := range fr.vc.e.addrPrefix(st.Addr, fr) {
+							ms.Allocs[p] = true
+						}
+						ms.Alloc = true
+						continue
+					}
+				}
+				// field store into a struct allocated by this function before the region: only that object changes
+				if root := allocRoot(st.Addr); root != nil && !blocks[root.Block()] && root.Heap {
+					if et := root.Type().(*types.Pointer).Elem(); isStruct(et) {
+						if _, ok := fr.env[root]; ok {
+							for _, p := range fr.vc.e.addrPrefix(st.Addr, fr) {
+								ms.Obj[p] = append(ms.Obj[p], root)
+							}
+							continue
+						}
+					}
 				}
 				// element store into a local slice variable: remember the variable instead of havocking the whole memory
 				if ia, ok := st.Addr.(*ssa.IndexAddr); ok {
@@ -527,6 +549,39 @@ func (fr *Frame) havoc(st, pre *State, reach *Term, ms *ModSet, hint string) {
 			closed = append(closed, [2]interface{}{n, nv})
 			// unchanged on everything the region did not allocate (pre-existing objects, and references that stay unallocated such as nil)
 			vc.cmds = append(vc.cmds, fmt.Sprintf("(assert (forall ((r Int)) (! (=> (or (select %s r) (not (select %s r))) (= (select %s r) (select %s r))) :pattern ((select %s r)) :pattern ((select %s r)))))", preAlloc, vc.allocArr(st), nv, old, nv, old))
+		}
+	}
+	for pfx, roots := range ms.Obj {
+		covered := false
+		for v := range ms.Vars {
+			if pfx == v || strings.HasPrefix(pfx, v+".") || strings.HasPrefix(pfx, v+"#") {
+				covered = true
+			}
+		}
+		if covered {
+			continue
+		}
+		var objs []*Term
+		for _, r := range roots {
+			objs = append(objs, fr.env[r].T())
+		}
+		for _, n := range vc.e.expandPrefix(pfx, vc) {
+			if containsStr(names, n) {
+				continue
+			}
+			if _, done := st.m[n]; done && st.m[n] != pre.m[n] {
+				continue
+			}
+			srt := vc.varSort(n)
+			old := vc.sv(pre, n, srt)
+			nv := vc.fresh(n+"."+hint, srt)
+			st.m[n] = nv
+			closed = append(closed, [2]interface{}{n, nv})
+			var diff []*Term
+			for _, o := range objs {
+				diff = append(diff, Not(Eq(A("r"), o)))
+			}
+			vc.cmds = append(vc.cmds, fmt.Sprintf("(assert (forall ((r Int)) (! (=> %s (= (select %s r) (select %s r))) :pattern ((select %s r)) :pattern ((select %s r))))) ;E", And(diff...), nv, old, nv, old))
 		}
 	}
 	for root, cells := range ms.Elem {
@@ -737,6 +792,14 @@ func (fr *Frame) instr(ins ssa.Instruction, reach *Term, st *State) *Term {
 	case *ssa.DebugRef:
 	case *ssa.Alloc:
 		et := ins.Type().(*types.Pointer).Elem()
+		if _, isStruct := et.Underlying().(*types.Struct); isStruct && !ins.Heap {
+			// a struct-typed local whose address does not escape is a bundle of local cells, not a heap object
+			lv := &LVal{Kind: LLocal, Typ: et, Root: "L." + fr.id + "." + ins.Name()}
+			fr.noteLV(lv)
+			vc.store(st, lv, e.zeroVal(et))
+			fr.setReg(ins, Val{Typ: ins.Type(), LV: lv})
+			break
+		}
 		switch ut := et.Underlying().(type) {
 		case *types.Struct:
 			r := vc.newRef(st, reach, ins.Name())
@@ -1097,4 +1160,18 @@ func (fr *Frame) guardCheck(lv *LVal, st *State, reach *Term, pos token.Pos, wha
 	vc.noteSort(gl, ArrSort("Int", "Bool"))
 	held := Sel(vc.sv(st, gl, ArrSort("Int", "Bool")), m)
 	vc.oblige("guard."+field, fr.lbl(what), reach, held, fr.pos(pos), what+" of "+gd.Type+"."+field+" requires holding "+gd.Type+"."+gd.By, props, "")
+}
+
+// allocRoot follows a chain of field addresses down to the allocation it starts from (nil if there is none).
+func allocRoot(v ssa.Value) *ssa.Alloc {
+	for {
+		switch a := v.(type) {
+		case *ssa.Alloc:
+			return a
+		case *ssa.FieldAddr:
+			v = a.X
+		default:
+			return nil
+		}
+	}
 }
